@@ -153,6 +153,26 @@ pub fn run_history(tr: &mut Trace, c: &Conc, r: &mut Rng, t: i32, tx: i32, hist:
     let rb = if by_path { readback_path(c, &shapes, &path) } else { readback_cursor(c, &shapes, &b1, &b2, &b3) };
     tr.emit(json!({"ev": "cdrop", "shp": jbytes(&b1), "shx": jbytes(&b2), "dbf": jbytes(&b3), "readback": rb}));
     if by_path {
+        // which of the three files the path constructors require / pick up: every subset present
+        let keep: Vec<(&str, Vec<u8>)> = ["shp", "shx", "dbf"].iter().map(|e| (*e, std::fs::read(path.with_extension(e)).unwrap_or_default())).collect();
+        for mask in 0..8u32 {
+            let mut present = vec![];
+            for (bit, (ext, bytes)) in keep.iter().enumerate() {
+                let p = path.with_extension(ext);
+                if mask & (1 << bit) != 0 {
+                    std::fs::write(&p, bytes).unwrap();
+                    present.push(*ext);
+                } else {
+                    let _ = std::fs::remove_file(&p);
+                }
+            }
+            let r1 = guarded(|| Reader::from_path(&path).map(|r| r.shape_count().map(|n| n as i64).unwrap_or_else(|e| if matches!(e, Error::MissingIndexFile) { -2 } else { -3 })));
+            let (res1, cnt1) = match r1 { Ok(Ok(n)) => ("ok".to_string(), n), Ok(Err(e)) => (err_json(&e)["err"].as_str().unwrap().to_string(), -9), Err(_) => ("panic".to_string(), -9) };
+            tr.emit(json!({"ev": "openpath", "which": "Reader", "present": present, "res": res1, "count": cnt1}));
+            let r2 = guarded(|| ShapeReader::from_path(&path).map(|r| r.shape_count().map(|n| n as i64).unwrap_or_else(|e| if matches!(e, Error::MissingIndexFile) { -2 } else { -3 })));
+            let (res2, cnt2) = match r2 { Ok(Ok(n)) => ("ok".to_string(), n), Ok(Err(e)) => (err_json(&e)["err"].as_str().unwrap().to_string(), -9), Err(_) => ("panic".to_string(), -9) };
+            tr.emit(json!({"ev": "openpath", "which": "ShapeReader", "present": present, "res": res2, "count": cnt2}));
+        }
         for ext in ["shp", "shx", "dbf"] {
             let _ = std::fs::remove_file(path.with_extension(ext));
         }
